@@ -22,10 +22,8 @@ RO = ['ComputeTotals', 'JacVec', 'CheckPartials', 'CheckTotals', 'ComputeColorin
 
 
 def digest(p):
-    h = hashlib.sha1()
-    h.update(p.model._inputs.asarray().tobytes())
-    h.update(p.model._outputs.asarray().tobytes())
-    return h.hexdigest()
+    """the visible state: all inputs and outputs (physical units)"""
+    return np.concatenate([p.model._inputs.asarray().real.ravel(), p.model._outputs.asarray().real.ravel()]).copy()
 
 
 def do_readonly(p, md, name, rng):
@@ -33,7 +31,7 @@ def do_readonly(p, md, name, rng):
     ofs = [ob.out_path(md, r['oid']) for r in md['responses']]
     wrts = [ob.out_path(md, d['oid']) for d in md['desvars']]
     if name == 'ComputeTotals':
-        p.compute_totals()
+        return np.array(p.compute_totals(return_format='array'))
     elif name == 'JacVec':
         mode = p._orig_mode if p._orig_mode in ('fwd', 'rev') else 'fwd'
         names = wrts if mode == 'fwd' else ofs
@@ -61,19 +59,32 @@ def do_readonly(p, md, name, rng):
 
 def observe(seed):
     from openmdao.core.analysis_error import AnalysisError
-    md, ref, rng = gen_model(seed, OPTS)
+    # half of the models carry solver scaling (ref / ref0 / res_ref): the checks enter and leave scaled contexts
+    md, ref, rng = gen_model(seed, dict(OPTS, scaling=True) if seed % 2 else OPTS)
     if md is None or not md['desvars'] or not md['responses']:
         return {'skip': 'rejected'}
-    ids = {}
+    states = []
 
     def did(x):
-        return ids.setdefault(x, len(ids) + 1)
+        # identity of a visible state: bit-equal, or equal up to the round-off of a scaling round trip (entering and
+        # leaving a scaled context multiplies and divides by ref - ref0 and adds and subtracts ref0, |ref0| <= 20, so an
+        # exact 0 may come back as 2e-15); a genuine change is many orders larger
+        for k, y in enumerate(states):
+            if y.shape == x.shape and (np.array_equal(x, y, equal_nan=True) or
+                                       np.allclose(x, y, rtol=1e-12, atol=1e-11, equal_nan=True)):
+                return k + 1
+        states.append(x)
+        return len(states)
     ev = []
     raised = []
     try:
         probs = []
         for k in range(2):
-            p = ob.build(md, {'mode': rng.choice(['fwd', 'rev']), 'force_alloc_complex': True})
+            cfg = {'mode': rng.choice(['fwd', 'rev']), 'force_alloc_complex': True}
+            if seed % 3 == 0:
+                # a declared total coloring whose sparsity is sampled with randomized seeds
+                cfg.update(coloring='direct', randomize_seeds=True)
+            p = ob.build(md, cfg)
             p.final_setup()
             probs.append(p)
         init = did(digest(probs[0]))
@@ -92,22 +103,38 @@ def observe(seed):
             else:
                 script.append(('RunModel', None, None))
         argids = {}
+        results = []
+        # every instance ends with a run and the derivative queries whose results are compared across the instances
+        script.append(('RunModel', None, None))
+        script.append(('End', None, None))
         for k, p in enumerate(probs):
             r = rngs[k]
             for (a, oid, vals) in script:
                 # a different number / kind of read-only calls before each mutating call in each instance
-                for _ in range(r.randrange(0, 3)):
-                    name = r.choice(RO)
+                ro_calls = [r.choice(RO) for _ in range(r.randrange(0, 3))] if a != 'End' else ['ComputeTotals', 'ComputeTotals']
+                for name in ro_calls:
                     pre = did(digest(p))
+                    res = 0
                     try:
-                        do_readonly(p, md, name, r)
+                        out = do_readonly(p, md, name, r)
+                        if out is not None:
+                            # result of the read-only call: equal results (1e-6) from the same visible state get the same id
+                            for (pre0, J0, rid) in results:
+                                if pre0 == pre and J0.shape == out.shape and np.allclose(J0, out, rtol=1e-6, atol=1e-9):
+                                    res = rid
+                                    break
+                            else:
+                                res = len(results) + 1
+                                results.append((pre, out, res))
                     except AnalysisError:
                         raise
                     except Exception as e:
                         # a read-only call that raises is not what this property is about; it is counted and the
                         # state afterwards is still required to be unchanged
                         raised.append('%s: %s: %s' % (name, type(e).__name__, str(e)[:120]))
-                    ev.append({'inst': k + 1, 'a': name, 'arg': 0, 'pre': pre, 'post': did(digest(p))})
+                    ev.append({'inst': k + 1, 'a': name, 'arg': 0, 'pre': pre, 'post': did(digest(p)), 'res': res})
+                if a == 'End':
+                    continue
                 pre = did(digest(p))
                 if a == 'SetVal':
                     p.set_val(ob.out_path(md, oid), np.array(vals, dtype=float).reshape(md['outs'][oid]['shape']))
@@ -115,13 +142,13 @@ def observe(seed):
                 else:
                     p.run_model()
                     arg = 0
-                ev.append({'inst': k + 1, 'a': a, 'arg': arg, 'pre': pre, 'post': did(digest(p))})
+                ev.append({'inst': k + 1, 'a': a, 'arg': arg, 'pre': pre, 'post': did(digest(p)), 'res': 0})
     except AnalysisError:
         return {'skip': 'noconv'}
     except Exception as e:
         import traceback
         return {'exc': '%s: %s' % (type(e).__name__, e), 'tb': traceback.format_exc()[-1500:], 'md': md}
-    return {'trace': {'ninst': 2, 'init': init, 'ev': ev}, 'md': md, 'seed': seed,
+    return {'trace': {'ninst': 2, 'init': init, 'ev': ev, 'dyn': seed % 3 == 0}, 'md': md, 'seed': seed,
             'cyclic': bool(md.get('cycle')), 'nro': sum(1 for e in ev if e['a'] in RO), 'raised': raised}
 
 
